@@ -56,7 +56,7 @@ class Unit(object):
 
 
 REPLAYERS = {}
-COMMON = (oracles.o_locks, oracles.o_c14)
+COMMON = (oracles.o_locks, oracles.o_c14, oracles.o_healthy)
 
 
 def metamorphic(ctx, scns_groups, family, fields, why, oracle_name):
